@@ -39,6 +39,10 @@ type Case struct {
 	Incs     [][]IncOp `json:"incs"`
 	Reps     [][]RepOp `json:"reps"`
 	Sched    []int     `json:"sched"`
+	// Filler: that many further counters and histograms are created in EVERY scope after the judged
+	// ones and recorded on once before the threads start (a scope's metric tables grow; handles
+	// handed out earlier must stay the ones the report pass looks at)
+	Filler int `json:"filler,omitempty"`
 }
 
 var deltaPool = []int64{0, 1, 1, 1, 2, 3, -1, -2, 1 << 31, -(1 << 31), 9223372036854775807, -9223372036854775808, 1000}
@@ -46,6 +50,9 @@ var deltaPool = []int64{0, 1, 1, 1, 2, 3, -1, -2, 1 << 31, -(1 << 31), 922337203
 func gen(t *rapid.T) Case {
 	c := Case{Cached: rapid.Bool().Draw(t, "cached"), Shards: uint(rapid.SampledFrom([]int{1, 1, 2, 4}).Draw(t, "shards"))}
 	c.NSub = rapid.IntRange(0, 2).Draw(t, "nsub")
+	if rapid.IntRange(0, 9).Draw(t, "filler?") == 0 {
+		c.Filler = rapid.IntRange(14, 24).Draw(t, "filler")
+	}
 	nc := rapid.IntRange(1, 3).Draw(t, "ncounters")
 	for i := 0; i < nc; i++ {
 		c.Counters = append(c.Counters, rapid.IntRange(0, c.NSub).Draw(t, "cscope"))
@@ -149,9 +156,19 @@ func run(c Case) (pbt.Outcome, error) {
 			hacct[i][p.Hi] = &acct{closable: sc != 0}
 		}
 	}
+	fillers := map[string]int64{}
+	for si, sc := range scopes {
+		for i := 0; i < c.Filler; i++ {
+			sc.Counter(fmt.Sprintf("fc%d", i)).Inc(1)
+			fillers[name(si, fmt.Sprintf("fc%d", i))] = 1
+			sc.Histogram(fmt.Sprintf("fh%d", i), tally.ValueBuckets{0, 1}).RecordValue(0)
+			fillers[name(si, fmt.Sprintf("fh%d", i))+"|<=0"] = 1
+		}
+	}
 	closedScope := make([]atomic.Bool, c.NSub+1)
 
 	s := sched.New(c.Sched)
+	s.MaxSteps += 3000 * c.Filler * (c.NSub + 1) // every filler metric adds hook visits to every pass
 	log.OnCall = s.Yield
 	tally.VerifSetHooks(&tally.VerifHooks{Yield: s.Yield, Lock: s.Lock})
 	defer tally.VerifSetHooks(nil)
@@ -290,6 +307,15 @@ func run(c Case) (pbt.Outcome, error) {
 			judge(k, a)
 			delete(delivered, k)
 		}
+	}
+	for k, want := range fillers {
+		if delivered[k] != want {
+			errs.Addf("filler metric %s (recorded once before the threads started): delivered total %d", k, delivered[k])
+		}
+		delete(delivered, k)
+	}
+	if c.Filler > 0 {
+		out.Classes = append(out.Classes, "many-metrics-in-one-scope")
 	}
 	for k := range delivered {
 		if strings.Contains(k, "|<=") {
